@@ -74,7 +74,7 @@ def generate(dump, outdir):
     t += "def keywordTable : List (String × KwKind) :=\n  ["
     rows = []
     for k in dump["keywords"]:
-        kind = f".unit {unit_term(k['unit'])}" if k["unit"] is not None else KW_TAG[k["tag"]]
+        kind = f".unit {unit_term(k['unit'])}" if k["unit"] is not None else KW_TAG.get(k["tag"], f".other {int(k['tag'])}")
         rows.append(f"({lstr(k['word'])}, {kind})")
     t += ",\n   ".join(rows) + "]\n\nend Calc.Gen\n"
     if write_if_changed(os.path.join(outdir, "Keywords.lean"), t): changed.append("Keywords")
